@@ -39,6 +39,23 @@ def gen(rng, tier, boost):
     lone = jc.lone_surrogate_cases(rng, lambda r: range(4), "P", full=(tier != "quick"))
     cases.extend(lone)
     dist["lone_surrogate_cut"] = len(lone)
+    # very short inputs: every single unit and every pair of units of the 8-bit alphabet whose first unit is a byte a
+    # parser entry might look at (signature / byte-order-mark prefixes, quotes, brackets, signs, digits, NUL, 0xFF),
+    # in all four widths; plus the 16/32-bit marks and all their proper prefixes
+    firsts = [0xEF, 0xBB, 0xBF, 0xFE, 0xFF, 0x00, 0x22, 0x5B, 0x7B, 0x2D, 0x2B, 0x30, 0x31, 0x74, 0x66, 0x6E, 0x5C, 0x20, 0x09, 0x2E, 0x65]
+    for a in range(256):
+        cases.append("P %d %d" % (rng.randrange(4), a))
+        dist["short_units"] = dist.get("short_units", 0) + 1
+    for a in firsts:
+        for b in range(256):
+            cases.append("P %d %d,%d" % (0 if rng.random() < 0.7 else rng.randrange(4), a, b))
+            dist["short_units"] += 1
+    for mark in ([0xEF, 0xBB, 0xBF], [0xFEFF], [0xFFFE], [0xFF, 0xFE], [0xFE, 0xFF], [0, 0, 0xFE, 0xFF], [0xEF, 0xBB, 0xBF, 0x5B, 0x5D], [0xFEFF, 0x5B, 0x5D]):
+        for k in range(1, len(mark) + 1):
+            for w in range(4):
+                if max(mark[:k]) <= [255, 65535, 0x10FFFF, 0x10FFFF][w]:
+                    cases.append("P %d %s" % (w, fmt_list(mark[:k])))
+                    dist["short_units"] += 1
     ndoc = (300 if tier == "quick" else 8000) * boost
     for _ in range(ndoc):
         w = rng.randrange(4)
